@@ -490,8 +490,10 @@ func init() {
 			c17m(2, 1, 7), c17m(1, 1, 24), c17m(3, 1, 3),
 			{Entry: "VerifC17Set", Params: map[string]int{"N": 2, "L": 1}, Covers: []string{"C17.set.end", "C17.set.union", "C17.set.difference"}, DiffRuns: 40},
 			{Entry: "VerifKFFromMapSingleton"}, {Entry: "VerifKFMapTxnReuse"},
+			{Entry: "VerifC17Break", Covers: []string{"C17.break.end"}, DiffRuns: 10},
 		},
 		Thorough: []HarnessRun{
+			{Entry: "VerifC17Break", Covers: []string{"C17.break.end"}, DiffRuns: 10},
 			c17m(2, 1, 31), c17m(3, 1, 7), c17m(2, 2, 7),
 			{Entry: "VerifC17Set", Params: map[string]int{"N": 3, "L": 1}, Covers: []string{"C17.set.end", "C17.set.union", "C17.set.difference"}, DiffRuns: 40},
 			{Entry: "VerifKFFromMapSingleton"}, {Entry: "VerifKFMapTxnReuse"},
